@@ -39,7 +39,7 @@ out.append('The changes were written by independent sub-agents that were given o
            'are each harmless alone; `-r3m2`: interleaving-only, or - for the codec / macro / hook / stub properties - an\n'
            'unusual but legitimate input or usage), round 4 (`-r4m1`: reachable only through a less common API entry\n'
            'point, wrapper or configuration; `-r4m2`: manifests only after an earlier failure / cancellation / drop on the\n'
-           'same connection), round 5 (fourteen properties, 27 changes; `-r5m1`: boundary values; `-r5m2`: interaction of two features), round 6 (six properties, one change each, `-r6m1`: depends on state left behind by earlier\n'
+           'same connection), round 5 (fourteen properties, 27 changes; `-r5m1`: boundary values; `-r5m2`: interaction of two features), round 6 (eleven properties, one change each, `-r6m1`: depends on state left behind by earlier\n'
            'activity on the same connection or object - a fresh connection doing single calls is unaffected). Each was confirmed by us in a scratch worktree (it compiles with default and full features,\n'
            'the existing suite passes with it, its own demonstration test passes without it and fails with it -\n'
            '`seeded/<id>/meta.json`). `F1..F5-revert` are the reverses of repair commits, `H1` a hand-written one. The\n'
